@@ -231,15 +231,15 @@ theorem fixed_honours_col (W s : Rat) (cols : List Dim) (cells : List FCell) (o 
 
 /-- **fixed_honours (first-row cells), one step.** A first-row cell of declared border-box width `bw`
 starting at column `i` and spanning `k` columns, `m ≥ 1` of which have no width yet, gives each of
-those `(bw − (k−1)·s − known) / m`; columns that already have a width and columns outside the span
-are untouched. -/
+those `max(bw − (k−1)·s − known, 0) / m` (the clamp is the repair 5d962d2: never a negative width);
+columns that already have a width and columns outside the span are untouched. -/
 theorem fixed_cell_share (s W : Rat) (cw : List (Option Rat)) (i : Nat) (c : FCell) (bw : Rat)
     (hbw : c.borderWidth W = some bw) (hm : spanUnknown cw i c.colspan ≠ 0) (j : Nat) (hj : j < cw.length) :
     (cellStep s W (cw, i) c).1[j]? =
       some (if i ≤ j ∧ j < i + c.colspan then
               (match cw[j] with
                | some w => some w
-               | none => some ((bw - s * ((c.colspan : Rat) - 1) - spanKnown cw i c.colspan) /
+               | none => some (max (bw - s * ((c.colspan : Rat) - 1) - spanKnown cw i c.colspan) 0 /
                                (spanUnknown cw i c.colspan : Rat)))
             else cw[j]) ∧
     (cellStep s W (cw, i) c).2 = i + c.colspan := by
@@ -255,16 +255,103 @@ theorem fixed_cell_share (s W : Rat) (cw : List (Option Rat)) (i : Nat) (c : FCe
     cases oj <;> rfl
   · simp only [hc, if_false]
 
+private def fillOpt (v : Rat) (o : Option Rat) : Option Rat := match o with | some w => some w | none => some v
+
+private theorem window_fillSpan (cw : List (Option Rat)) (i k : Nat) (v : Rat) :
+    ((fillSpan cw i k v).drop i).take k = ((cw.drop i).take k).map (fillOpt v) := by
+  apply List.ext_getElem?
+  intro j
+  by_cases hj : j < k
+  · rw [List.getElem?_take_of_lt hj, List.getElem?_drop, List.getElem?_map, List.getElem?_take_of_lt hj,
+      List.getElem?_drop]
+    unfold fillSpan
+    rw [List.getElem?_mapIdx]
+    cases h : cw[i + j]? with
+    | none => simp
+    | some o =>
+      have hc : i ≤ i + j ∧ i + j < i + k := ⟨by omega, by omega⟩
+      simp only [Option.map_some, hc, and_self, if_true]
+      cases o <;> rfl
+  · rw [List.getElem?_take_eq_none (by omega), List.getElem?_map, List.getElem?_take_eq_none (by omega)]
+    rfl
+
+private theorem sum_fill (l : List (Option Rat)) (v : Rat) :
+    sumR ((l.map (fillOpt v)).filterMap id) = sumR (l.filterMap id) + ((l.filter Option.isNone).length : Rat) * v ∧
+    (l.map (fillOpt v)).filter Option.isNone = [] := by
+  induction l with
+  | nil => simp
+  | cons o os ih =>
+    cases o with
+    | none =>
+      have e1 : ((none :: os).map (fillOpt v)).filterMap id = v :: (os.map (fillOpt v)).filterMap id := rfl
+      have e2 : ((none : Option Rat) :: os).filterMap id = os.filterMap id := rfl
+      have e3 : (((none : Option Rat) :: os).filter Option.isNone).length = (os.filter Option.isNone).length + 1 := by
+        simp
+      have e4 : ((none :: os).map (fillOpt v)).filter Option.isNone = (os.map (fillOpt v)).filter Option.isNone := rfl
+      rw [e1, e2, e3, e4]
+      refine ⟨?_, ih.2⟩
+      simp only [sumR]
+      rw [ih.1]
+      push_cast
+      ring
+    | some w =>
+      have e1 : ((some w :: os).map (fillOpt v)).filterMap id = w :: (os.map (fillOpt v)).filterMap id := rfl
+      have e2 : (some w :: os).filterMap id = w :: os.filterMap id := rfl
+      have e3 : ((some w :: os).filter Option.isNone).length = (os.filter Option.isNone).length := by simp
+      have e4 : ((some w :: os).map (fillOpt v)).filter Option.isNone = (os.map (fillOpt v)).filter Option.isNone := rfl
+      rw [e1, e2, e3, e4]
+      refine ⟨?_, ih.2⟩
+      simp only [sumR]
+      rw [ih.1]
+      ring
+
+/-- **fixed_honours (first-row cells), exact.** A first-row cell whose declared border-box width `bw`
+covers the spacings and the widths already known in its span (`share ≥ 0`: feasible) gets exactly
+`bw`: after its step every column of its span has a width and they add up, with the spacings between
+them, to `bw`. -/
+theorem fixed_cell_exact (s W : Rat) (cw : List (Option Rat)) (i : Nat) (c : FCell) (bw : Rat)
+    (hbw : c.borderWidth W = some bw) (hm : spanUnknown cw i c.colspan ≠ 0)
+    (hfeas : 0 ≤ cellShare s cw i c.colspan bw) :
+    spanUnknown (cellStep s W (cw, i) c).1 i c.colspan = 0 ∧
+    spanKnown (cellStep s W (cw, i) c).1 i c.colspan + s * ((c.colspan : Rat) - 1) = bw := by
+  obtain ⟨v, hv⟩ : ∃ v, v = max (cellShare s cw i c.colspan bw) 0 / (spanUnknown cw i c.colspan : Rat) := ⟨_, rfl⟩
+  have hstep : (cellStep s W (cw, i) c).1 = fillSpan cw i c.colspan v := by
+    unfold cellStep
+    simp only [hbw, hm, if_false, hv]
+  have hu : (((cw.drop i).take c.colspan).filter Option.isNone).length = spanUnknown cw i c.colspan := rfl
+  have hk : sumR (((cw.drop i).take c.colspan).filterMap id) = spanKnown cw i c.colspan := rfl
+  rw [hstep]
+  obtain ⟨h1, h2⟩ := sum_fill ((cw.drop i).take c.colspan) v
+  have g1 : spanUnknown (fillSpan cw i c.colspan v) i c.colspan = 0 := by
+    unfold spanUnknown
+    rw [window_fillSpan, h2]
+    rfl
+  have g2 : spanKnown (fillSpan cw i c.colspan v) i c.colspan = spanKnown cw i c.colspan +
+      (spanUnknown cw i c.colspan : Rat) * v := by
+    show sumR ((((fillSpan cw i c.colspan v).drop i).take c.colspan).filterMap id) = _
+    rw [window_fillSpan, h1, hu, hk]
+  refine ⟨g1, ?_⟩
+  rw [g2, hv, max_eq_left hfeas]
+  have hne : ((spanUnknown cw i c.colspan : Nat) : Rat) ≠ 0 := by exact_mod_cast hm
+  rw [mul_div_cancel₀ _ hne]
+  unfold cellShare
+  ring
+
+/-- Non-vacuity of `fixed_cell_exact`: `<col width=30><col><col>`, a first-row `<td colspan=3 width=100>`,
+spacing 2: the two columns without width get `(100 − 2·2 − 30) / 2 = 33` each and `30 + 33 + 33 + 2·2 = 100`. -/
+example : (cellStep 2 200 ([some 30, none, none], 0) ⟨3, .px 100, 0, 0, 0, 0, .content⟩).1 = [some 30, some 33, some 33] := by
+  decide +kernel
+
 /-- **fixed_honours (first-row cells), final widths.** The width a cell hands to a column survives
 the rest of the algorithm: with `(cw, i)` the state reached before the cell, a spanned column `j`
-without width ends up with the cell's equal share plus the common bump. -/
+without width ends up with the cell's equal share (clamped at 0) plus the common bump. -/
 theorem fixed_honours_cell (W s : Rat) (cols : List Dim) (pre post : List FCell) (c : FCell) (o : FixedOut)
     (h : fixedLayout (some W) s cols (pre ++ c :: post) = .ok o)
     (bw : Rat) (hbw : c.borderWidth W = some bw) :
     let n := numColumns cols (pre ++ c :: post)
     let st := pre.foldl (cellStep s W) (cols.map (·.used W) ++ List.replicate (n - cols.length) none, 0)
     ∀ j, st.2 ≤ j → j < st.2 + c.colspan → st.1[j]? = some none →
-      o.cols[j]? = some (cellShare s st.1 st.2 c.colspan bw / (spanUnknown st.1 st.2 c.colspan : Rat)
+      o.cols[j]? = some (max (cellShare s st.1 st.2 c.colspan bw) 0 / (spanUnknown st.1 st.2 c.colspan : Rat)
                          + fixedBump W s cols (pre ++ c :: post)) := by
   intro n st j hj1 hj2 hnone
   rw [(fixed_closed_form W s cols _ o h).1, List.getElem?_map]
@@ -293,7 +380,7 @@ theorem fixed_honours_cell (W s : Rat) (cols : List Dim) (pre post : List FCell)
     injection this with this; exact this.symm
   simp only [hj1, hj2, and_self, if_true, hget] at hstep
   have h1 : (fixedAfterCells W s cols (pre ++ c :: post))[j]? =
-      some (some (cellShare s st.1 st.2 c.colspan bw / (spanUnknown st.1 st.2 c.colspan : Rat))) := by
+      some (some (max (cellShare s st.1 st.2 c.colspan bw) 0 / (spanUnknown st.1 st.2 c.colspan : Rat))) := by
     unfold fixedAfterCells
     simp only [List.foldl_append, List.foldl_cons]
     apply foldl_cellStep_some
@@ -315,15 +402,63 @@ theorem fixed_honours_rest (W s : Rat) (cols : List Dim) (cells : List FCell) (o
   rw [fillNone_none _ _ j hj]
   rfl
 
-/-- **fixed_nonneg_partial.** If no first-row cell was narrower than the declared widths of the
-columns it spans (i.e. all widths known after the first-row pass are ≥ 0), every final column
-width is ≥ 0.
-Full statement (`all cw ≥ 0 given non-negative declarations`, DESIGN §4 C10) is FALSE of the code:
-see `Witness.C10.fixed_negative_column` (finding `fixed-negative-column`). -/
-theorem fixed_nonneg_partial (W s : Rat) (cols : List Dim) (cells : List FCell) (o : FixedOut)
-    (h : fixedLayout (some W) s cols cells = .ok o)
-    (hpos : ∀ w, some w ∈ fixedAfterCells W s cols cells → 0 ≤ w) :
+/-- Every width known after the first-row pass is `≥ 0` as soon as the declared `<col>` widths are:
+a first-row cell hands out `max(share, 0) / m` (repair 5d962d2). -/
+private theorem cellStep_nonneg (s W : Rat) (st : List (Option Rat) × Nat) (c : FCell)
+    (h : ∀ w, some w ∈ st.1 → 0 ≤ w) : ∀ w, some w ∈ (cellStep s W st c).1 → 0 ≤ w := by
+  unfold cellStep
+  dsimp only
+  split
+  · exact h
+  · split
+    · exact h
+    · intro w hw
+      unfold fillSpan at hw
+      rw [List.mem_mapIdx] at hw
+      obtain ⟨j, hj, hw⟩ := hw
+      have hmem : st.1[j] ∈ st.1 := List.getElem_mem hj
+      split at hw
+      · cases hoj : st.1[j] with
+        | some x =>
+          rw [hoj] at hw hmem
+          simp only [Option.some.injEq] at hw
+          subst hw
+          exact h _ hmem
+        | none =>
+          rw [hoj] at hw
+          simp only [Option.some.injEq] at hw
+          subst hw
+          apply div_nonneg (le_max_right _ _)
+          exact_mod_cast Nat.zero_le _
+      · rw [hw] at hmem
+        exact h w hmem
+
+private theorem foldl_cellStep_nonneg (s W : Rat) (cells : List FCell) (st : List (Option Rat) × Nat)
+    (h : ∀ w, some w ∈ st.1 → 0 ≤ w) : ∀ w, some w ∈ (cells.foldl (cellStep s W) st).1 → 0 ≤ w := by
+  induction cells generalizing st with
+  | nil => exact h
+  | cons c cs ih => exact ih _ (cellStep_nonneg s W st c h)
+
+/-- Non-negative `<col>` declarations (px, or % of the table width). -/
+def NonnegCols (W : Rat) (cols : List Dim) : Prop := ∀ d ∈ cols, ∀ w, d.used W = some w → 0 ≤ w
+
+theorem fixedAfterCells_nonneg (W s : Rat) (cols : List Dim) (cells : List FCell)
+    (hcols : NonnegCols W cols) : ∀ w, some w ∈ fixedAfterCells W s cols cells → 0 ≤ w := by
+  unfold fixedAfterCells
+  apply foldl_cellStep_nonneg
+  intro w hw
+  simp only [List.mem_append, List.mem_map, List.mem_replicate] at hw
+  rcases hw with ⟨d, hd, hdw⟩ | ⟨_, hw⟩
+  · exact hcols d hd w hdw
+  · cases hw
+
+/-- **fixed_nonneg** (full strength since repair 5d962d2; was `fixed_nonneg_partial`, finding
+`fixed-negative-column`).  With non-negative `<col>` declarations every final column width is `≥ 0`,
+whatever the first-row cells declare (even negative or infeasible widths). -/
+theorem fixed_nonneg (W s : Rat) (cols : List Dim) (cells : List FCell) (o : FixedOut)
+    (h : fixedLayout (some W) s cols cells = .ok o) (hcols : NonnegCols W cols) :
     ∀ w ∈ o.cols, 0 ≤ w := by
+  have hpos := fixedAfterCells_nonneg W s cols cells hcols
   intro w hw
   rw [(fixed_closed_form W s cols cells o h).1, List.mem_map] at hw
   obtain ⟨v, hv, rfl⟩ := hw
@@ -345,6 +480,12 @@ theorem fixed_nonneg_partial (W s : Rat) (cols : List Dim) (cells : List FCell) 
     | none => exact hfill
     | some x => exact hpos x hov
   linarith
+
+/-- Regression input of the former finding `fixed-negative-column`: `<col width=100><col>`, one
+`<td colspan=2 width=50>` in a 60px table: the second column now gets 0 (then nothing: the table is
+widened to 100), not −50. -/
+example : fixedLayout (some 60) 0 [.px 100, .auto] [⟨2, .px 50, 0, 0, 0, 0, .content⟩] = .ok ⟨100, [100, 0]⟩ := by
+  decide +kernel
 
 example : fixedLayout (some 200) 0 [.px 100, .auto, .auto] [⟨2, .px 130, 0, 0, 0, 0, .content⟩]
     = .ok ⟨200, [100, 30, 70]⟩ := by decide +kernel
